@@ -3,21 +3,20 @@
 import json, os
 ROOT = os.path.dirname(os.path.dirname(os.path.abspath(__file__)))
 
-TB = ("Trusted: Coq 8.16.1 kernel and vm_compute (no native_compute); no axioms (Print Assumptions: closed); "
+TB_UNUSED = ("Trusted: Coq 8.16.1 kernel and vm_compute (no native_compute); no axioms (Print Assumptions: closed); "
       "the hand-written Gallina model is tied to /repo by a differential correspondence check on every run "
       "(generator-bounded); Rust harness and tools/lib.py. ")
 
-CHECKS = {
-    "C12": dict(
-        text="Coq theorem C12_window: for every policy spec with a finite limit and every history of approvals, "
-             "node-entry writes and restarts with non-decreasing times, the approved amounts in any window no longer "
-             "than (buckets-1)*interval sum to at most the limit (induction over the history with a per-bucket "
-             "accounting invariant; saturating adds modelled).  The model (insert, persist-on-approve, restore) is "
-             "run against VelocityControl and against Node::add_keysend / restore_node on the same histories every run.",
-        design="§4 C12",
-        note=TB + "Modelled, not verified: serde round trip of the persisted control; clock monotonicity is the property's hypothesis.",
-        technique="Coq proof (invariant by induction over histories) + vm_compute correspondence with the Rust implementation"),
-}
+import importlib, sys, glob
+sys.path.insert(0, os.path.dirname(os.path.abspath(__file__)))
+
+# every tools/props/cNN.py that defines MANIFEST = dict(text=, design=, note=, technique=) is a claimed check
+CHECKS = {}
+for f in sorted(glob.glob(os.path.join(os.path.dirname(os.path.abspath(__file__)), "props", "c[0-9]*.py"))):
+    name = os.path.basename(f)[:-3]
+    mod = importlib.import_module("props." + name)
+    if hasattr(mod, "MANIFEST"):
+        CHECKS[name.upper()] = mod.MANIFEST
 
 NOT_YET = {}
 
